@@ -16,13 +16,15 @@ suite=PASS
 dir=v2
 case "$files" in lib/*) dir=lib ;; main.go*) dir=. ;; esac
 if grep -q '"demo_dir"' "$D/meta.json" 2>/dev/null; then dir=$(python3 -c "import json;print(json.load(open('$D/meta.json'))['demo_dir'])"); fi
+DEMO="$D/demo_test.go"
+[ -f "$DEMO" ] || DEMO="$D/demo_test.go.txt"
 run_demo() {
-  if [ -f "$D/demo_test.go" ]; then
-    pkgline=$(grep -m1 '^package ' "$D/demo_test.go")
+  if [ -f "$DEMO" ]; then
+    pkgline=$(grep -m1 '^package ' "$DEMO")
     d="$dir"
     case "$pkgline" in "package main"*) case "$files" in v2/jd/*) d=v2/jd ;; *) [ "$d" = v2 ] && d=v2/jd ;; esac ;; esac
-    cp "$D/demo_test.go" "$WT/$d/zz_demo_test.go"
-    tests=$(grep -o 'func Test[A-Za-z0-9_]*' "$D/demo_test.go" | sed 's/func //' | tr '\n' '|' | sed 's/|$//')
+    cp "$DEMO" "$WT/$d/zz_demo_test.go"
+    tests=$(grep -o 'func Test[A-Za-z0-9_]*' "$DEMO" | sed 's/func //' | tr '\n' '|' | sed 's/|$//')
     ( cd "$WT/$d" && go test -count=1 -run "^($tests)\$" . ) >/tmp/verify_demo.$$ 2>&1; rc=$?
     rm -f "$WT/$d/zz_demo_test.go"
     return $rc
